@@ -327,7 +327,9 @@ func (fs *FileSink) pruneFiles() error {
 // isRotatedName reports whether name is the pattern with a timestamp (digits
 // only) in place of its %s.
 func isRotatedName(pattern, name string) bool {
-	parts := strings.SplitN(pattern, "%s", 2)
+	// The text around the timestamp: format the pattern with a placeholder no
+	// file name can contain, and split there.
+	parts := strings.SplitN(fmt.Sprintf(pattern, "\x00"), "\x00", 2)
 	if len(parts) != 2 || !strings.HasPrefix(name, parts[0]) || !strings.HasSuffix(name, parts[1]) {
 		return false
 	}
@@ -350,8 +352,10 @@ func (fs *FileSink) fileNamePattern() string {
 		ext = ".log"
 	}
 
-	// Add format string between file and extension
-	return strings.TrimSuffix(fs.FileName, ext) + "-%s" + ext
+	// Add format string between file and extension. The configured name is
+	// text, not a format: a % in it has to come through Sprintf unchanged.
+	text := strings.NewReplacer("%", "%%")
+	return text.Replace(strings.TrimSuffix(fs.FileName, ext)) + "-%s" + text.Replace(ext)
 }
 
 func (fs *FileSink) newFileName(createTime time.Time) string {
